@@ -344,6 +344,162 @@ static void group_skc(Args &A) {
 	}
 }
 
+
+// ---- direct: the shuffle / rotation / SKC arguments on raw ElGamal vectors, prover and verifier objects built through
+//      DIFFERENT construction paths of the API (generated, p/q/g/h-constructed, stream-constructed, public-coin generators),
+//      in particular GrothVSSHE with a commitment key that lives in an independently generated group (com->p,q != p,q) ----------
+struct Vecs {
+	std::vector<Z> store; std::vector<mpz_ptr> R; std::vector<std::pair<mpz_ptr, mpz_ptr> > e, E; std::vector<size_t> pi; size_t rot = 0;
+	// e_i = (g^a, h^a g^m), E_i = e_{pi(i)} * (g^{R_i}, h^{R_i})
+	Vecs(size_t n, unsigned kind, bool rotation, mpz_srcptr p, mpz_srcptr q, mpz_srcptr g, mpz_srcptr h) {
+		store.resize(5 * n); pi = make_perm(n, rotation ? (kind % 2 ? 5 : 3 + kind % 3) : kind);
+		if (rotation) { size_t r0 = pi[0]; for (size_t i = 0; i < n; i++) pi[i] = (r0 + i) % n; rot = (n - r0) % n; }
+		for (size_t i = 0; i < n; i++) { e.push_back(std::make_pair((mpz_ptr)store[5 * i], (mpz_ptr)store[5 * i + 1]));
+			E.push_back(std::make_pair((mpz_ptr)store[5 * i + 2], (mpz_ptr)store[5 * i + 3])); R.push_back(store[5 * i + 4]); }
+		Z a, m, t;
+		for (size_t i = 0; i < n; i++) { gen_below(a, q); mpz_set_ui(m, gen().below(50)); mpz_powm(e[i].first, g, a, p);
+			mpz_powm(e[i].second, h, a, p); mpz_powm(t, g, m, p); mpz_mul(e[i].second, e[i].second, t); mpz_mod(e[i].second, e[i].second, p); }
+		for (size_t i = 0; i < n; i++) { gen_below(R[i], q); if (gen().below(9) == 0) mpz_set_ui(R[i], gen().below(2));
+			mpz_powm(E[i].first, g, R[i], p); mpz_mul(E[i].first, E[i].first, e[pi[i]].first); mpz_mod(E[i].first, E[i].first, p);
+			mpz_powm(E[i].second, h, R[i], p); mpz_mul(E[i].second, E[i].second, e[pi[i]].second); mpz_mod(E[i].second, E[i].second, p); }
+	}
+};
+static void vsshe_variants(GrothVSSHE *P, GrothVSSHE *V, size_t n, unsigned kind, const std::string &d0) {
+	Vecs X(n, kind, false, P->p, P->q, P->g, P->h);
+	std::string d = d0 + " n=" + std::to_string(n) + " perm=" + PK[kind % 6];
+	duplex("vsshe-interactive-rejected", "GrothVSSHE::Verify_interactive " + d,
+		[&](std::istream &in, std::ostream &out) { P->Prove_interactive(X.pi, X.R, X.e, X.E, in, out); return true; },
+		[&](std::istream &in, std::ostream &out) { return V->Verify_interactive(X.e, X.E, in, out); });
+	duplex("vsshe-publiccoin-rejected", "GrothVSSHE::Verify_interactive_publiccoin " + d,
+		[&](std::istream &in, std::ostream &out) { JareckiLysyanskayaEDCF cf(2, 0, P->p, P->q, P->g, P->h); P->Prove_interactive_publiccoin(X.pi, X.R, X.e, X.E, &cf, in, out); return true; },
+		[&](std::istream &in, std::ostream &out) { JareckiLysyanskayaEDCF cf(2, 0, V->p, V->q, V->g, V->h); return V->Verify_interactive_publiccoin(X.e, X.E, &cf, in, out); });
+	simplex("vsshe-noninteractive-rejected", "GrothVSSHE::Verify_noninteractive " + d,
+		[&](std::ostream &out) { P->Prove_noninteractive(X.pi, X.R, X.e, X.E, out); },
+		[&](std::istream &in) { return V->Verify_noninteractive(X.e, X.E, in); });
+}
+static void skc_variants(GrothSKC *P, GrothSKC *V, size_t n, unsigned kind, const std::string &d0) {
+	std::vector<Z> ms(n); std::vector<mpz_ptr> m, mperm(n); for (size_t i = 0; i < n; i++) { gen_below(ms[i], P->com->q); m.push_back(ms[i]); }
+	std::vector<size_t> pi = make_perm(n, kind); for (size_t i = 0; i < n; i++) mperm[i] = m[pi[i]];
+	Z c, r; P->com->Commit(c, r, mperm);
+	if (!V->com->Verify(c, r, mperm)) propfail("pedersen-open-rejected", "PedersenCommitmentScheme::Verify (other object) rejects the honest opening " + d0);
+	std::string d = d0 + " n=" + std::to_string(n) + " perm=" + PK[kind % 6];
+	duplex("skc-interactive-rejected", "GrothSKC::Verify_interactive " + d,
+		[&](std::istream &in, std::ostream &out) { P->Prove_interactive(pi, r, m, in, out); return true; },
+		[&](std::istream &in, std::ostream &out) { return V->Verify_interactive(c, m, in, out, gen().coin()); });
+	duplex("skc-publiccoin-rejected", "GrothSKC::Verify_interactive_publiccoin " + d,
+		[&](std::istream &in, std::ostream &out) { JareckiLysyanskayaEDCF cf(2, 0, P->com->p, P->com->q, P->com->g[0], P->com->h); P->Prove_interactive_publiccoin(pi, r, m, &cf, in, out); return true; },
+		[&](std::istream &in, std::ostream &out) { JareckiLysyanskayaEDCF cf(2, 0, V->com->p, V->com->q, V->com->g[0], V->com->h); return V->Verify_interactive_publiccoin(c, m, &cf, in, out, gen().coin()); });
+	for (int opt = 0; opt < 2; opt++)
+		simplex("skc-noninteractive-rejected", std::string("GrothSKC::Verify_noninteractive(optimizations=") + (opt ? "true) " : "false) ") + d,
+			[&](std::ostream &out) { P->Prove_noninteractive(pi, r, m, out); }, [&](std::istream &in) { return V->Verify_noninteractive(c, m, in, opt); });
+}
+static void vrhe_variants(HooghSchoenmakersSkoricVillegasVRHE *P, HooghSchoenmakersSkoricVillegasVRHE *V, size_t n, unsigned kind, const std::string &d0) {
+	Vecs X(n, kind, true, P->p, P->q, P->g, P->h);
+	std::string d = d0 + " n=" + std::to_string(n) + " r=" + std::to_string(X.rot);
+	duplex("vrhe-interactive-rejected", "VRHE::Verify_interactive " + d,
+		[&](std::istream &in, std::ostream &out) { P->Prove_interactive(X.rot, X.R, X.e, X.E, in, out); return true; },
+		[&](std::istream &in, std::ostream &out) { return V->Verify_interactive(X.e, X.E, in, out); });
+	duplex("vrhe-publiccoin-rejected", "VRHE::Verify_interactive_publiccoin " + d,
+		[&](std::istream &in, std::ostream &out) { JareckiLysyanskayaEDCF cf(2, 0, P->p, P->q, P->g, P->h); P->Prove_interactive_publiccoin(X.rot, X.R, X.e, X.E, &cf, in, out); return true; },
+		[&](std::istream &in, std::ostream &out) { JareckiLysyanskayaEDCF cf(2, 0, V->p, V->q, V->g, V->h); return V->Verify_interactive_publiccoin(X.e, X.E, &cf, in, out); });
+	simplex("vrhe-noninteractive-rejected", "VRHE::Verify_noninteractive " + d,
+		[&](std::ostream &out) { P->Prove_noninteractive(X.rot, X.R, X.e, X.E, out); }, [&](std::istream &in) { return V->Verify_noninteractive(X.e, X.E, in); });
+}
+static std::string pub(mpz_srcptr a, mpz_srcptr b, mpz_srcptr c, mpz_srcptr d) { return str62(a) + "\n" + str62(b) + "\n" + str62(c) + "\n" + str62(d) + "\n"; }
+
+static void group_direct(Args &A, int sub) {
+	const bool T = A.thorough();
+	std::vector<size_t> ns = { 2, 3, 5, 8 }; if (T) { ns.push_back(13); ns.push_back(32); }
+	size_t nmax = ns.back();
+	const unsigned long le = 32; const unsigned PB = 192, QB = 128;
+	auto sweep = [&](std::function<void(size_t, unsigned)> f) { for (size_t n : ns) for (unsigned kind = 0; kind < 6; kind++) { if (n > 5 && kind != 2 && kind != 5) continue; f(n, kind); } };
+	// encryption group + common key h (a random group element)
+	Grp G = gen_group(PB, QB); Z h; { Z x; gen_below(x, G.q); mpz_powm(h, G.g, x, G.p); }
+	if (sub < 0 || sub == 0) {   // VSSHE: commitment key in an INDEPENDENT group of the same size (p/q/k/h-constructed Pedersen scheme)
+		Grp G2 = gen_group(PB, QB); Z h2; { Z x; gen_below(x, G2.q); mpz_powm(h2, G2.g, x, G2.p); }
+		PedersenCommitmentScheme com2(nmax, G2.p, G2.q, G2.k, h2, PB, QB);
+		std::stringstream cp; com2.PublishGroup(cp);
+		std::stringstream s1(pub(G.p, G.q, G.g, h) + cp.str());
+		GrothVSSHE P(nmax, s1, le, PB, QB); std::stringstream pb; P.PublishGroup(pb); GrothVSSHE V(nmax, pb, le, PB, QB);
+		std::string d0 = "separate commitment group (com->q != q), both stream-constructed, " + gd(G) + " l_e=32";
+		if (!P.CheckGroup() || !V.CheckGroup()) propfail("vsshe-group-rejected", "CheckGroup false: " + d0);
+		else sweep([&](size_t n, unsigned k) { vsshe_variants(&P, &V, n, k, d0); });
+	}
+	if (sub < 0 || sub == 1) {   // VSSHE: commitment group generated by the Pedersen constructor itself (tmcg_mpz_lprime), larger q
+		PedersenCommitmentScheme com3(nmax, 256, 160);
+		std::stringstream cp; com3.PublishGroup(cp);
+		std::stringstream s1(pub(G.p, G.q, G.g, h) + cp.str());
+		GrothVSSHE P(nmax, s1, le, PB, QB); std::stringstream pb; P.PublishGroup(pb); GrothVSSHE V(nmax, pb, le, PB, QB);
+		std::string d0 = "generated commitment group |p|=256 |q|=160 for an encryption group " + gd(G) + " l_e=32";
+		if (!P.CheckGroup() || !V.CheckGroup()) propfail("vsshe-group-rejected", "CheckGroup false: " + d0);
+		else sweep([&](size_t n, unsigned k) { if (n <= 5) vsshe_variants(&P, &V, n, k, d0); });
+	}
+	if (sub < 0 || sub == 2) {   // VSSHE: same group, prover p/q/k/g/h-constructed, verifier stream-constructed; then public-coin generators on both
+		GrothVSSHE P(nmax, G.p, G.q, G.k, G.g, h, le, PB, QB); std::stringstream pb; P.PublishGroup(pb); GrothVSSHE V(nmax, pb, le, PB, QB);
+		std::string d0 = "same group, constructed vs stream, " + gd(G);
+		if (!P.CheckGroup() || !V.CheckGroup()) propfail("vsshe-group-rejected", "CheckGroup false: " + d0);
+		else sweep([&](size_t n, unsigned k) { if (n <= 3) vsshe_variants(&P, &V, n, k, d0); });
+		Z a; gen_bits(a, 200); P.SetupGenerators_publiccoin(a); V.SetupGenerators_publiccoin(a);
+		d0 = "same group, generators from SetupGenerators_publiccoin, " + gd(G);
+		if (!P.CheckGroup() || !V.CheckGroup()) propfail("vsshe-group-rejected", "CheckGroup false: " + d0);
+		else sweep([&](size_t n, unsigned k) { if (n <= 5) vsshe_variants(&P, &V, n, k, d0); });
+	}
+	if (sub < 0 || sub == 3) {   // SKC: generated instance proves, stream-constructed instance verifies (and the other way round)
+		GrothSKC P(nmax, le, 256, 160); std::stringstream pb; P.PublishGroup(pb); GrothSKC V(nmax, pb, le, 256, 160);
+		std::string d0 = "SKC generated (|p|=256,|q|=160) vs stream-constructed, l_e=32";
+		if (!P.CheckGroup() || !V.CheckGroup()) propfail("skc-group-rejected", "CheckGroup false: " + d0);
+		else sweep([&](size_t n, unsigned k) { if (n <= 5) { skc_variants(&P, &V, n, k, d0); if (k == 2) skc_variants(&V, &P, n, k, d0 + " (roles swapped)"); } });
+		Z a; gen_bits(a, 200); P.SetupGenerators_publiccoin(a); V.SetupGenerators_publiccoin(a);
+		if (!P.CheckGroup() || !V.CheckGroup()) propfail("skc-group-rejected", "CheckGroup false after SetupGenerators_publiccoin");
+		else sweep([&](size_t n, unsigned k) { if (n <= 3) skc_variants(&P, &V, n, k, d0 + " public-coin generators"); });
+	}
+	if (sub < 0 || sub == 4) {   // rotation: generated instance vs stream-constructed; p/q/g/h-constructed vs stream
+		{ HooghSchoenmakersSkoricVillegasVRHE P(256, 160); std::stringstream pb; P.PublishGroup(pb); HooghSchoenmakersSkoricVillegasVRHE V(pb, 256, 160);
+		  std::string d0 = "VRHE generated (|p|=256,|q|=160) vs stream-constructed";
+		  if (!P.CheckGroup() || !V.CheckGroup()) propfail("hoogh-group-rejected", "CheckGroup false: " + d0);
+		  else sweep([&](size_t n, unsigned k) { vrhe_variants(&P, &V, n, k, d0); if (k == 2 && n <= 5) vrhe_variants(&V, &P, n, k, d0 + " (roles swapped)"); }); }
+		{ HooghSchoenmakersSkoricVillegasVRHE P(G.p, G.q, G.g, h, PB, QB); std::stringstream pb; P.PublishGroup(pb); HooghSchoenmakersSkoricVillegasVRHE V(pb, PB, QB);
+		  std::string d0 = "VRHE p/q/g/h-constructed vs stream-constructed " + gd(G);
+		  if (!P.CheckGroup() || !V.CheckGroup()) propfail("hoogh-group-rejected", "CheckGroup false: " + d0);
+		  else sweep([&](size_t n, unsigned k) { if (n <= 5) vrhe_variants(&P, &V, n, k, d0); }); }
+	}
+	if (sub < 0 || sub == 5) {   // VTMF construction paths: generated (canonical / random generator, GroupQR) -> PublishGroup -> stream-constructed peers
+		for (int cfg = 0; cfg < 3; cfg++) {
+			BarnettSmartVTMF_dlog *a0 = cfg == 2 ? new BarnettSmartVTMF_dlog_GroupQR(256, 160) : new BarnettSmartVTMF_dlog(256, 160, cfg == 0, true);
+			std::stringstream pg; a0->PublishGroup(pg); std::string t = pg.str();
+			std::stringstream i1(t);
+			BarnettSmartVTMF_dlog *b0 = cfg == 2 ? new BarnettSmartVTMF_dlog_GroupQR(i1, 256, 160) : new BarnettSmartVTMF_dlog(i1, 256, 160, cfg == 0, true);
+			std::string d0 = std::string(cfg == 0 ? "generated canonical g" : cfg == 1 ? "generated random g" : "generated GroupQR") + " vs stream-constructed, |p|=256";
+			if (!a0->CheckGroup() || !b0->CheckGroup()) { propfail("group-rejected", "CheckGroup false: " + d0); delete a0; delete b0; continue; }
+			Table Tb; Tb.pl.push_back(a0); Tb.pl.push_back(b0);
+			for (auto v : Tb.pl) v->KeyGenerationProtocol_GenerateKey();
+			for (int i = 0; i < 2; i++) { std::stringstream s; Tb.pl[i]->KeyGenerationProtocol_PublishKey(s); if (!Tb.pl[1 - i]->KeyGenerationProtocol_UpdateKey(s)) propfail("keyshare-nizk-rejected", "honest key contribution refused: " + d0); }
+			for (auto v : Tb.pl) v->KeyGenerationProtocol_Finalize();
+			for (int i = 0; i < 4; i++) {
+				BarnettSmartVTMF_dlog *v = Tb.pl[i % 2], *w = Tb.pl[1 - i % 2];
+				duplex("keyshare-interactive-rejected", "KeyGenerationProtocol_ProveKey_interactive " + d0,
+					[&](std::istream &in, std::ostream &out) { return v->KeyGenerationProtocol_ProveKey_interactive(in, out); },
+					[&](std::istream &in, std::ostream &out) { return w->KeyGenerationProtocol_VerifyKey_interactive(v->h_i, in, out); });
+				Z m, c1, c2, r; v->RandomElement(m); v->VerifiableMaskingProtocol_Mask(m, c1, c2, r);
+				simplex("masking-honest-rejected", "VerifiableMaskingProtocol " + d0, [&](std::ostream &o) { v->VerifiableMaskingProtocol_Prove(m, c1, c2, r, o); },
+					[&](std::istream &in) { return w->VerifiableMaskingProtocol_Verify(m, c1, c2, in); });
+				Z d1, d2, r2; v->VerifiableRemaskingProtocol_Mask(c1, c2, d1, d2, r2);
+				simplex("remasking-honest-rejected", "VerifiableRemaskingProtocol " + d0, [&](std::ostream &o) { v->VerifiableRemaskingProtocol_Prove(c1, c2, d1, d2, r2, o); },
+					[&](std::istream &in) { return w->VerifiableRemaskingProtocol_Verify(c1, c2, d1, d2, in); });
+				w->VerifiableDecryptionProtocol_Verify_Initialize(d1);
+				simplex("decryption-honest-rejected", "VerifiableDecryptionProtocol " + d0, [&](std::ostream &os) { v->VerifiableDecryptionProtocol_Prove(d1, os); },
+					[&](std::istream &in) { return w->VerifiableDecryptionProtocol_Verify_Update(d1, in); });
+				Z mm; w->VerifiableDecryptionProtocol_Verify_Finalize(d2, mm);
+				if (mpz_cmp(mm, m)) propfail("decryption-wrong-message", "decryption does not return the masked message: " + d0);
+			}
+			// toolbox shuffle with a VSSHE built by the generated instance and re-read by the peer
+			if (cfg != 2) { SchindelhauerTMCG tmcg(8, 2, 4); GrothVSSHE gp(8, a0->p, a0->q, a0->k, a0->g, a0->h, 32, 256, 160); std::stringstream pb; gp.PublishGroup(pb); GrothVSSHE gv(8, pb, 32, 256, 160);
+				for (unsigned kind = 0; kind < 3; kind++) stack_cases(tmcg, a0, b0, &gp, &gv, 0, 0, 3 + kind, kind, d0, "groth"); }
+			free_table(Tb);
+		}
+	}
+}
+
 static int proto_main(Args &A) {
 	signal(SIGPIPE, SIG_IGN);
 	std::string g = A.only; int sub = -1;
@@ -352,6 +508,7 @@ static int proto_main(Args &A) {
 	else if (g == "edcf") group_edcf(A);
 	else if (g == "cutchoose" || g == "groth" || g == "hoogh") group_stacks(A, g, sub);
 	else if (g == "skc") group_skc(A);
+	else if (g == "direct") group_direct(A, sub);
 	else if (g == "rabin") group_rabin(A);
 	else { fprintf(stderr, "unknown group %s\n", g.c_str()); return 2; }
 	printf("STAT proto group=%s cases=%lu\n", A.only.c_str(), cases);
